@@ -585,10 +585,12 @@ impl ser::SerializeStruct for SerializeTimestamp {
     }
 
     fn end(self) -> std::result::Result<Self::Ok, Self::Error> {
-        Ok(chrono::Duration::seconds(self.secs)
-            .checked_add(&chrono::Duration::nanoseconds(self.nanos.into()))
-            .unwrap()
-            .into())
+        chrono::Duration::try_seconds(self.secs)
+            .and_then(|d| d.checked_add(&chrono::Duration::nanoseconds(self.nanos.into())))
+            .map(Value::from)
+            .ok_or_else(|| {
+                SerializationError::SerdeError("duration struct is out of range".to_owned())
+            })
     }
 }
 
@@ -789,6 +791,17 @@ enum TimeSerializer {
 }
 
 #[cfg(feature = "chrono")]
+impl TimeSerializer {
+    /// The error for data other than what the marker newtype structs wrap: the marker names are
+    /// private, but nothing stops a `Serialize` implementation from using them.
+    fn unexpected(&self) -> SerializationError {
+        SerializationError::SerdeError(format!(
+            "unexpected data in {self:?} marker newtype struct"
+        ))
+    }
+}
+
+#[cfg(feature = "chrono")]
 impl ser::Serializer for TimeSerializer {
     type Ok = Value;
     type Error = SerializationError;
@@ -829,74 +842,74 @@ impl ser::Serializer for TimeSerializer {
     }
 
     fn serialize_bool(self, _v: bool) -> Result<Value> {
-        unreachable!()
+        Err(self.unexpected())
     }
 
     fn serialize_i8(self, _v: i8) -> Result<Value> {
-        unreachable!()
+        Err(self.unexpected())
     }
 
     fn serialize_i16(self, _v: i16) -> Result<Value> {
-        unreachable!()
+        Err(self.unexpected())
     }
 
     fn serialize_i32(self, _v: i32) -> Result<Value> {
-        unreachable!()
+        Err(self.unexpected())
     }
 
     fn serialize_i64(self, _v: i64) -> Result<Value> {
-        unreachable!()
+        Err(self.unexpected())
     }
 
     fn serialize_u8(self, _v: u8) -> Result<Value> {
-        unreachable!()
+        Err(self.unexpected())
     }
 
     fn serialize_u16(self, _v: u16) -> Result<Value> {
-        unreachable!()
+        Err(self.unexpected())
     }
 
     fn serialize_u32(self, _v: u32) -> Result<Value> {
-        unreachable!()
+        Err(self.unexpected())
     }
 
     fn serialize_u64(self, _v: u64) -> Result<Value> {
-        unreachable!()
+        Err(self.unexpected())
     }
 
     fn serialize_f32(self, _v: f32) -> Result<Value> {
-        unreachable!()
+        Err(self.unexpected())
     }
 
     fn serialize_f64(self, _v: f64) -> Result<Value> {
-        unreachable!()
+        Err(self.unexpected())
     }
 
     fn serialize_char(self, _v: char) -> Result<Value> {
-        unreachable!()
+        Err(self.unexpected())
     }
 
     fn serialize_bytes(self, _v: &[u8]) -> Result<Value> {
-        unreachable!()
+        Err(self.unexpected())
     }
 
     fn serialize_none(self) -> Result<Value> {
-        unreachable!()
+        Err(self.unexpected())
     }
 
     fn serialize_some<T>(self, _value: &T) -> Result<Value>
     where
         T: ?Sized + Serialize,
     {
-        unreachable!()
+        Err(self.unexpected())
     }
 
     fn serialize_unit(self) -> Result<Value> {
-        unreachable!()
+        Err(self.unexpected())
     }
 
     fn serialize_unit_struct(self, _name: &'static str) -> Result<Value> {
-        unreachable!()
+        Err(self.unexpected())
     }
 
     fn serialize_unit_variant(
@@ -905,14 +918,14 @@ impl ser::Serializer for TimeSerializer {
         _variant_index: u32,
         _variant: &'static str,
     ) -> Result<Value> {
-        unreachable!()
+        Err(self.unexpected())
     }
 
     fn serialize_newtype_struct<T>(self, _name: &'static str, _value: &T) -> Result<Value>
     where
         T: ?Sized + Serialize,
     {
-        unreachable!()
+        Err(self.unexpected())
     }
 
     fn serialize_newtype_variant<T>(
@@ -925,15 +938,15 @@ impl ser::Serializer for TimeSerializer {
     where
         T: ?Sized + Serialize,
     {
-        unreachable!()
+        Err(self.unexpected())
     }
 
     fn serialize_seq(self, _len: Option<usize>) -> Result<Self::SerializeSeq> {
-        unreachable!()
+        Err(self.unexpected())
     }
 
     fn serialize_tuple(self, _len: usize) -> Result<Self::SerializeTuple> {
-        unreachable!()
+        Err(self.unexpected())
     }
 
     fn serialize_tuple_struct(
@@ -941,7 +954,7 @@ impl ser::Serializer for TimeSerializer {
         _name: &'static str,
         _len: usize,
     ) -> Result<Self::SerializeTupleStruct> {
-        unreachable!()
+        Err(self.unexpected())
     }
 
     fn serialize_tuple_variant(
@@ -951,11 +964,11 @@ impl ser::Serializer for TimeSerializer {
         _variant: &'static str,
         _len: usize,
     ) -> Result<Self::SerializeTupleVariant> {
-        unreachable!()
+        Err(self.unexpected())
     }
 
     fn serialize_map(self, _len: Option<usize>) -> Result<Self::SerializeMap> {
-        unreachable!()
+        Err(self.unexpected())
     }
 
     fn serialize_struct_variant(
@@ -965,7 +978,7 @@ impl ser::Serializer for TimeSerializer {
         _variant: &'static str,
         _len: usize,
     ) -> Result<Self::SerializeStructVariant> {
-        unreachable!()
+        Err(self.unexpected())
     }
 }
 
